@@ -423,6 +423,9 @@ func (x *Exec) localByName(e *Env, name string) (val, bool) {
 			if rv := x.loopRangeSlice(e.atHeader); rv != nil {
 				return val{x.value(rv), rv.Type(), vc.sortOf(rv.Type())}, true
 			}
+			if it := x.loopIter(e.atHeader); it != nil && it.m != "" {
+				return val{it.m, it.mt, sInt}, true
+			}
 		}
 		if name == "$visited" {
 			if it := x.loopIter(e.atHeader); it != nil {
